@@ -1,3 +1,4 @@
+import PGT.Proofs.FromUniformAll
 import PGT.Proofs.FromFlat
 import PGT.Proofs.FromUniform
 import PGT.Proofs.FromConforms
@@ -187,5 +188,43 @@ theorem C05_no_diagnostics_example : ConformsAttrs cfFields cfAttrs := by
   rcases he with rfl | rfl
   · exact ⟨.string, false, true, .str [], rfl, by decide, by simp [known]⟩
   · exact ⟨.string, false, false, .str [121], rfl, by decide, fun _ => ⟨.str [121], by decide⟩⟩
+
+-- ------------------------------------------------------------------------------------------------------
+-- prior independence for EVERY message, oneof branches and children of nullable embedded messages included (proofs:
+-- `Proofs/FromUniformAll.lean`): two calls on the same Terraform value with different prior structs succeed together, append the same
+-- diagnostics and hook calls, leave the same holders, agree on every Go field a block writes, and agree below a nullable embedded
+-- parent in the normal form of C04 (literally when the priors agree on whether the parent is allocated – the conjecture "literally
+-- when a child attribute is known" is refuted there: a null sibling before the known child leaves nil vs an empty slice).
+section
+open PGT.PriorIndep PGT.OrderIndep
+/-- **C05, every message: the result of `Copy<T>FromTerraform` is determined by the Terraform value alone** – oneof
+branches and children of nullable embedded messages included.  For every IR that satisfies the decidable side conditions
+`SideOK`, every Terraform value (conforming or not) and any two prior structs (a parent pointer that is set points to a
+struct): the two calls succeed together, and after successful calls `PriorIndepRes` holds. -/
+theorem C05_prior_independent_all (ov : List (String × String)) (m : Msg) (tf : TfVal) (p1 p2 : List (String × GoVal))
+    (hside : SideOK m) (hw1 : PriorWF m p1) (hw2 : PriorWF m p2) :
+    ((∃ r, copyFrom ov m tf (.struct p1) = .ok r) ↔ (∃ r, copyFrom ov m tf (.struct p2) = .ok r)) ∧
+    ∀ r1 r2, copyFrom ov m tf (.struct p1) = .ok r1 → copyFrom ov m tf (.struct p2) = .ok r2 →
+      PriorIndepRes m (attrsOf tf) p1 p2 r1 r2 := by
+  intros; apply PGT.PriorIndep.copyFrom_prior_independent_all <;> assumption
+
+/-- **C05 in terms of the normal form of the property**: if moreover the Go names are distinct (`NamesOK`) and every field
+is covered by the Terraform object, the results on two priors are equal in the normal form `Spec.nfEqFields` on the fields
+of `m` (stated against the self-comparison of one result: `nfEqFields` is reflexive on well-shaped structs only) -/
+theorem C05_prior_independent_nfEq (ov : List (String × String)) (m : Msg) (tf : TfVal) (p1 p2 : List (String × GoVal))
+    (hside : SideOK m) (hw1 : PriorWF m p1) (hw2 : PriorWF m p2) (hn : NamesOK m.fields)
+    (hcov : ∀ g ∈ m.fields, Covered m (attrsOf tf) g.info)
+    (r1 r2 : FromResult) (e1 : copyFrom ov m tf (.struct p1) = .ok r1) (e2 : copyFrom ov m tf (.struct p2) = .ok r2) :
+    nfEqFields m.fields r1.obj r2.obj = nfEqFields m.fields r1.obj r1.obj ∧
+    nfEqFields m.fields r2.obj r1.obj = nfEqFields m.fields r1.obj r1.obj ∧
+    nfEqFields m.fields r2.obj r2.obj = nfEqFields m.fields r1.obj r1.obj := by
+  exact PGT.PriorIndep.copyFrom_prior_independent_nfEq ov m tf p1 p2 hside hw1 hw2 hn hcov r1 r2 e1 e2
+
+/-- **Build guarantees `GroupsListed`** -/
+theorem C05_built_groups_listed (fuel : Nat) (cfg : CfgView) (req : Request) (desc : MsgD) (isRoot : Bool) (path : String)
+    (m : Msg) (h : buildMessage fuel cfg req desc isRoot path = .ok m) : GroupsListed m := by
+  intros; apply PGT.PriorIndep.buildMessage_groupsListed <;> assumption
+
+end
 
 end PGT.Props.C05
